@@ -149,9 +149,9 @@ def assemble(unit, canary=False):
         if canary:
             norm = _insert_canary(norm)
         woven, winfo = weave.weave(norm, ovl, vf.overlay)
-        first = len(out) + 1
+        first = sum(x.count("\n") + 1 for x in out) + 1
         emit(woven)
-        last = len(out)
+        last = sum(x.count("\n") + 1 for x in out)
         spans.append((first, last, vf))
         line0 = src[:it.start].count("\n") + 1
         info["functions"].append({
